@@ -1,5 +1,6 @@
 use vbase::engine::{Ctx, Sub};
 
+pub mod c01;
 pub mod c02;
 pub mod c03;
 pub mod c04;
@@ -28,6 +29,7 @@ pub struct Prop {
 
 pub fn all() -> Vec<Prop> {
     vec![
+        Prop { id: "C01", run: c01::run, subs: c01::subs, rule: c01::RULE, assumptions: c01::ASSUMPTIONS },
         Prop { id: "C02", run: c02::run, subs: c02::subs, rule: c02::RULE, assumptions: c02::ASSUMPTIONS },
         Prop { id: "C03", run: c03::run, subs: c03::subs, rule: c03::RULE, assumptions: c03::ASSUMPTIONS },
         Prop { id: "C07", run: c07::run, subs: c07::subs, rule: c07::RULE, assumptions: c07::ASSUMPTIONS },
